@@ -292,7 +292,7 @@ CANDIDATES = {   # proposed lines for known_findings.txt (property=C14), witness
     "match_tagstr_sep": ({"cmd": "law.f.tagstr", "args": ["a.b", "c", "d"], "kind": "law"},
                          "Tag() does not validate its fields: parse_tag(str(Tag('a.b','c','d'))) has two members, parse_tag(str(Tag('a-b','c','d'))) raises ValueError"),
     "match_d10_build": ({"cmd": "f.wheel", "args": ["foo-1.0-" + "9" * 4301 + "-py3-none-any.whl"]},
-                        "D10 at the wheel build tag: int() beyond the digit limit raises a bare ValueError out of parse_wheel_filename"),
+                        "D10 at the wheel build tag (registered by the lead): a build number of more than 4300 digits is rejected with InvalidWheelFilename; the model has no digit limit"),
 }
 
 
